@@ -110,7 +110,13 @@ def table_module(theorem):
         grp = "Ascii"
     elif "ispatch" in name:
         grp = "Dispatch"
-    elif name.startswith(("cvv_", "pvv_", "decimalize_", "ibm_")):
+    elif name.startswith("cvv_"):
+        grp = "CardCvv"
+    elif name.startswith("pvv_"):
+        grp = "CardPvv"
+    elif name.startswith("ibm_"):
+        grp = "CardIbm"
+    elif name.startswith("decimalize_"):
         grp = "Card"
     else:
         grp = "Version"
